@@ -6,6 +6,8 @@ RUNS = {"quick": 4000, "thorough": 120000}
 BUDGET_S = {"quick": 50, "thorough": 840}
 CHUNK = 50
 RULE = ("One evaluation = one seeded history on Slurm/SGE/LSF/local pool with adversarial execution (any legal start/finish order, success or any failure kind, scheduler-side cancels, prerequisites submitted in earlier invocations) and with scheduler transitions injected BETWEEN the submission commands of a running `gwf run`. Layer 1: the dependency expression received (afterok list, hold_jid list, done() conjunction, deps=[...]) parses in the simulated scheduler's own grammar to exactly the ids of the plan's prerequisites. Layer 2 (invariant of the composition): at every job start, every job that was producing the target's inputs at its submission instant has finished, and on Slurm/LSF/local finished successfully. Non-trivial = at least one job with in-flight producers started.")
+RULE += (" Histories also contain interrupted or failing gwf invocations (hard kill at a seam event, Ctrl-C, ENOSPC, a failing or "
+         "unreachable scheduler command) - only the invocations after them are judged - and 1-2 % of the runs use 140-260 targets.")
 PROFILE = dict(
     nontrivial_probes=["job_starts_with_producers"],
     backends=["slurm", "slurm", "sge", "lsf", "local", "local"],
